@@ -47,7 +47,11 @@ type slDesc struct {
 }
 
 type slCase struct {
-	Fam   string          `json:"fam"`
+	Fam string `json:"fam"`
+	DD  struct {
+		Dir string   `json:"dir"`
+		Arg []string `json:"arg"`
+	} `json:"dd"`
 	DS    []slDesc        `json:"ds"`
 	D     slDesc          `json:"-"` // DS[0]
 	Style json.RawMessage `json:"style"`
@@ -295,10 +299,10 @@ func C16(run *vf.Run) {
 	run.Exhaustive = true
 	run.Assume("words (names, plain text) are opaque: only delimiter handling is explored; the vocabulary is 3 collections, 4 operators, 14 actions")
 	run.Assume("SecAction / SecMarker / chains / SecRuleUpdate* texts are not rendered")
-	var cases []slCase
+	var cases, dirCases []slCase
 	var mu sync.Mutex
 	var tlcErr error
-	fams := []string{"targets", "op", "acts", "chain"}
+	fams := []string{"targets", "op", "acts", "chain", "dirarg"}
 	slices := 2
 	allStyles := vf.Pick(run, "FALSE", "TRUE")
 	var wg sync.WaitGroup
@@ -311,7 +315,11 @@ func C16(run *vf.Run) {
 					Workers: 3, Timeout: vf.Pick(run, 10*time.Minute, 90*time.Minute),
 					OnOut: func(raw json.RawMessage) {
 						var c slCase
-						if err := json.Unmarshal(raw, &c); err == nil && len(c.DS) > 0 {
+						if err := json.Unmarshal(raw, &c); err == nil && c.Fam == "dirarg" {
+							mu.Lock()
+							dirCases = append(dirCases, c)
+							mu.Unlock()
+						} else if err == nil && len(c.DS) > 0 {
 							c.D = c.DS[0]
 							mu.Lock()
 							cases = append(cases, c)
@@ -344,6 +352,52 @@ func C16(run *vf.Run) {
 		return cases[i].Mut.Kind+cases[i].Mut.Role < cases[j].Mut.Kind+cases[j].Mut.Role
 	})
 	run.Logf("SecLang_MC: %d texts", len(cases))
+	// single-argument directives: quoted or not, whatever the case of the directive name, they configure the same thing
+	{
+		prelude := "SecRule ARGS \"@rx a\" \"id:1,phase:2,pass,tag:'t',tag:'tt',tag:'t.t'\"\nSecRule ARGS \"@rx a\" \"id:10,phase:2,pass\"\n"
+		seen := map[string]map[string]string{}
+		for i := range dirCases {
+			c := &dirCases[i]
+			if c.Mut.Kind != "none" {
+				continue
+			}
+			text := prelude + strings.Join(c.Toks, "") + "\n"
+			sum := ""
+			func() {
+				defer func() {
+					if r := recover(); r != nil {
+						sum = fmt.Sprint("panic: ", r)
+					}
+				}()
+				waf := corazawaf.NewWAF()
+				err := seclang.NewParser(waf).FromString(text)
+				var rs []string
+				rules := waf.Rules.GetRules()
+				for k := range rules {
+					rs = append(rs, c16DumpKey(rules[k].VerifDump()))
+				}
+				sum = fmt.Sprintf("error=%v engine=%v reqlimit=%v rules=%v", err != nil, waf.RuleEngine, waf.RequestBodyLimit, rs)
+			}()
+			run.Eval(text)
+			k := c.DD.Dir + " " + strings.Join(c.DD.Arg, "")
+			if seen[k] == nil {
+				seen[k] = map[string]string{}
+			}
+			seen[k][sum] = strings.Join(c.Toks, "")
+		}
+		for k, g := range seen {
+			if len(g) > 1 {
+				var ws []string
+				for sum, t := range g {
+					ws = append(ws, strconv.Quote(t)+" => "+sum[:min(len(sum), 90)])
+				}
+				sort.Strings(ws)
+				run.Violate(vf.Violation{Signature: "seclang:renderings-differ|directive-argument", What: "the directive " + k + " configures different things depending on how it is written (quoted argument / case of the name): " + strings.Join(ws, " || "),
+					Replay: map[string]any{"family": "seclang-directive", "directive": k, "renderings": ws}})
+				break
+			}
+		}
+	}
 	scratch := vf.Scratch("c16")
 	defer os.RemoveAll(scratch)
 	reported := map[string]bool{}
